@@ -16,6 +16,14 @@ def main():
                 out[f'{relpath}:{name}'] = list(val)
         except Exception as ex:
             out[f'{relpath}:{name}'] = {'error': repr(ex)}
+    if len(sys.argv) > 2:
+        for key, expr in json.loads(sys.argv[2]):
+            try:
+                val = eval(expr, {'__import__': __import__, '__builtins__': __builtins__})
+                json.dumps(val)
+                out['expr:' + key] = val
+            except Exception as ex:
+                out['expr:' + key] = {'error': repr(ex)}
     print(json.dumps(out))
 
 if __name__ == '__main__':
